@@ -177,7 +177,7 @@ fn gen_cuts(r: &mut Rng, len: usize, st: &Structure) -> Vec<usize> {
 impl Prop for C17 {
     type Scn = Scn;
     const ID: &'static str = "C17";
-    const ENGINE: &'static str = "netsim";
+    const ENGINE: &'static str = crate::NETSIM_ENGINE;
 
     fn rule() -> &'static str {
         "one evaluation = one chunking history of one generated HTTP/2 connection start through Http2FingerprintExtractor (plus one format comparison per stream against the reference model); non-trivial = a non-empty first SETTINGS frame completes AND the stream is fed in >= 2 chunks; distinct = distinct event-log hash (chunk ends, results)"
@@ -190,12 +190,14 @@ impl Prop for C17 {
     fn generate(r: &mut Rng, tier: Tier, _idx: u64) -> Scn {
         let odd = r.chance(1, 3);
         let big = if odd && r.chance(1, 4) { Some(r.urange(16385, 20000)) } else { None };
-        let o = Opts { request: true, hostile: Hostile::None, fancy_headers: r.chance(1, 3), odd_order: odd, self_ref: r.chance(1, 4), continuation: false, big_frame: big, announce_max_frame: r.chance(1, 10), huge_block: 0, extra_streams: 0 };
+        let o = Opts { request: true, hostile: Hostile::None, fancy_headers: r.chance(1, 3), odd_order: odd, self_ref: r.chance(1, 4), continuation: false, big_frame: big, announce_max_frame: r.chance(1, 10), huge_block: 0, extra_streams: 0, leading_frames: 0 };
         // one stream in forty carries a header block of tens to hundreds of KiB (one HEADERS frame and up to ~36 maximal CONTINUATION frames)
         let huge = if r.chance(1, 40) { *r.pick(&[20_000usize, 70_000, 150_000, 270_000, 400_000, 600_000]) + r.usize_below(5000) } else { 0 };
-        let o = Opts { huge_block: huge, ..o };
+        // one stream in sixty starts with thousands of ignorable frames ahead of SETTINGS
+        let lead = if huge == 0 && r.chance(1, 60) { *r.pick(&[100usize, 1000, 4095, 4096, 4097, 5000, 9000]) } else { 0 };
+        let o = Opts { huge_block: huge, leading_frames: lead, ..o };
         let (stream, structure) = http2::connection_start(r, &o);
-        let n = if huge > 0 { 2 } else { tier.pick(10, 24) };
+        let n = if huge > 0 { 2 } else if lead > 0 { 4 } else { tier.pick(10, 24) };
         let chunkings = (0..n).map(|_| gen_cuts(r, stream.len(), &structure)).collect();
         Scn { stream, structure, chunkings, reuse_after_reset: r.chance(1, 4) }
     }
@@ -205,7 +207,7 @@ impl Prop for C17 {
         let n = tier.pick(3, 40);
         for h in 0..n {
             let mut r = Rng::new(0xC17_0000 + h as u64);
-            let o = Opts { request: true, hostile: Hostile::None, fancy_headers: false, odd_order: h % 3 == 2, self_ref: false, continuation: false, big_frame: None, announce_max_frame: false, huge_block: 0, extra_streams: 0 };
+            let o = Opts { request: true, hostile: Hostile::None, fancy_headers: false, odd_order: h % 3 == 2, self_ref: false, continuation: false, big_frame: None, announce_max_frame: false, huge_block: 0, extra_streams: 0, leading_frames: 0 };
             let (stream, structure) = loop {
                 let (s, st) = http2::connection_start(&mut r, &o);
                 if s.len() <= 400 {
@@ -258,7 +260,7 @@ impl Prop for C17 {
             // prefix of it, fed in any chunks), after reset(), behaves like a fresh one on this stream for every chunking
             {
                 let mut r = Rng::new(crate::rng::mix64(scn.stream.len() as u64 ^ 0xC17E) ^ scn.stream.iter().take(64).fold(0u64, |h, b| crate::rng::mix64(h ^ *b as u64)));
-                let o = Opts { request: true, hostile: Hostile::None, fancy_headers: r.chance(1, 3), odd_order: r.chance(1, 3), self_ref: false, continuation: false, big_frame: None, announce_max_frame: false, huge_block: 0, extra_streams: 0 };
+                let o = Opts { request: true, hostile: Hostile::None, fancy_headers: r.chance(1, 3), odd_order: r.chance(1, 3), self_ref: false, continuation: false, big_frame: None, announce_max_frame: false, huge_block: 0, extra_streams: 0, leading_frames: 0 };
                 let (other, _) = http2::connection_start(&mut r, &o);
                 for cuts in scn.chunkings.iter().take(4) {
                     let stop = r.usize_below(other.len() + 1);
